@@ -107,10 +107,20 @@ TEXTS = {
                 text='Bounded: pretty_call / pretty_call_alt argument lists (all with <= 1 argument, random up to 4+3) and generated dataclass / attrs '
                      'class definitions (all with <= 1 field, random up to 3-4) x instances x configurations: callee, argument order, field selection, eval.',
                 note='keyword names fn/ctx cannot be passed to pretty_call by Python itself: outside the quantifier for pretty_call (kept for pretty_call_alt).'),
-    'C18': dict(category='other', engine='bounded', technique='frame obligations decided by effect analysis over the ast of the real source (one obligation per mutation site, module-level mutable binding, global rebinding, memoising decorator, id() call, settings flow); ' + _BOUNDED,
-                text='Proved on the source (frame): pformat / pprint / cpprint call python_to_sdocs(object, **_merge_defaults(each setting under its own name)); the only global rebinding is set_default_config. Bounded: 64 explicit/default combinations of the six settings after every sequence of <= 2 (3) set_default_config calls x all entry '
-                     'points (pformat, pprint, cpprint, PrettyPrinter, pretty_repr) x 3 values.',
-                note='pformat under pristine defaults with all settings explicit is the reference.'),
+    'C18': dict(category='proof', engine='pyvc+bounded', technique=_PYVC + '; frame obligations decided by effect analysis over the ast of the real source; ' + _BOUNDED,
+                text='Proved for all inputs from the source of prettyprinter/__init__.py (family config, 471 obligations): for every value, stream, '
+                     'state of the module-level defaults and EVERY combination of explicit / unset settings (each setting a symbolic object that '
+                     'may be the sentinel): _merge_defaults lets explicit arguments override the defaults field by field; pformat returns '
+                     'text(v, merged settings); pprint appends exactly that text followed by `end` (if truthy) to the given stream or sys.stdout '
+                     'and touches no other stream (whole-heap postcondition); cpprint renders the same sdocs with the style; set_default_config '
+                     'changes exactly the settings it is given (all 64 paths), never indent, and returns the new defaults; get_default_config '
+                     'reports them; pretty_repr of a registered type is pformat with every setting defaulted. Declarations (key set of '
+                     '_default_config, signature of python_to_sdocs, the imported names, the single sentinel instance) are re-checked against '
+                     'the source on every run. The PrettyPrinter shim stores and forwards *args / **kwargs unchanged (opaque argument packs; binding them '
+                     'to the parameters is Python call semantics, not modelled). Bounded stand-in: 64 '
+                     'explicit/default combinations after every sequence of <= 2 (3) set_default_config calls x all entry points x 3 values.',
+                note=_ENC + 'python_to_sdocs and the two renderers are external here: assumed deterministic functions of their arguments that '
+                            'append to the given stream only; `end` is a str; the printer registry is not modelled.'),
     'C19': dict(category='other', engine='bounded', technique='frame obligations decided by effect analysis over the ast of the real source (one obligation per mutation site, module-level mutable binding, global rebinding, memoising decorator, id() call, settings flow); ' + _BOUNDED,
                 text='Proved on the source (164 frame obligations): every mutation site targets an object created in the same function or a declared frame location and never something reachable from the printed value; no module-level mutable state, global rebinding or memoising decorator outside the declared frame; id() occurs only in the visited-set primitives and the recursion marker. Bounded: 79 corpus entries printed first in fresh interpreters, in whole-corpus orders, and in 48 (1200) in-process sequences with '
                      'allocation churn; deep snapshots of inputs before/after.',
